@@ -19,6 +19,8 @@ def values_for(t, rng, n, budget=4):
         forced = list(range(t.nvariants()))
     elif isinstance(t, Adt) and t.d.is_enum:
         forced = list(range(len(t.variants)))
+        if len(forced) > 16:       # many variants: the ends and the byte boundary
+            forced = [0, 1, 254, 255, 256, 257, 258, len(forced) - 1]
     for f in forced:
         v = t.gen(rng, budget, force=f)
         if v not in seen:
